@@ -466,11 +466,18 @@ pub fn run_session<C: Autocomplete + Help>(
         }
         if on(P_C02) {
             rep.eval();
+            rep.count("c02.handout.hooked_states");
+            if !call_bytes.is_empty() {
+                rep.count("c02.handout.echo_calls");
+                rep.seen(hash_u64s(&[2, 0, crate::prng::hash_bytes(0, &call_bytes[..call_bytes.len().min(6)])]));
+            }
             if !call_bytes.is_empty() && core::str::from_utf8(&call_bytes).is_err() {
                 found!("C02", P_C02, "handout-illformed", "echo", i, "bytes emitted by one call are not UTF-8: {}", show_bytes(&call_bytes));
             }
             for r in &rig.proc.log[log0..] {
                 rep.eval();
+                rep.count("c02.handout.handler_records");
+                rep.seen(hash_u64s(&[2, 1, token_shape(&String::from_utf8_lossy(&pre.line))]));
                 let mut bad = core::str::from_utf8(&r.name).is_err();
                 for a in &r.args {
                     bad |= match a {
